@@ -4,6 +4,7 @@ import (
 	"fmt"
 	"go/token"
 	"go/types"
+	"os"
 	"sort"
 	"strings"
 
@@ -148,7 +149,10 @@ func (f *Frame) appendOp(x *ssa.Call, c *ssa.CallCommon, at string, st *State) *
 		vc.assume(at, implies(inplace, fmt.Sprintf("(forall ((%s Int)) (! (=> (or (< %s (+ (s_off %s) %s)) (>= %s (+ (s_off %s) %s))) (= (select %s %s) (select %s %s))) :pattern ((select %s %s))))",
 			j, j, s, n, j, s, total, inner, j, oldInner, j, inner, j)), "append: in place leaves the rest of the array alone")
 	}
-	{
+	if _, loopCarried := c.Args[0].(*ssa.Phi); loopCarried && os.Getenv("GOVC_NO_IDXPREFIX") == "" && !isByteSlice(c.Args[0].Type()) {
+		// (only for x = append(x, ...) on a loop-carried x: that is where invariants of
+		// the form "forall k :: x[k] ..." have to be carried across the append; stated
+		// everywhere it multiplies instantiations for no benefit)
 		// the same prefix fact in the indexed form that specifications use
 		// (r[k] == s[k] for k < len(s)); implied by the facts above, stated so that
 		// the trigger of "forall k :: { r[k] } ..." finds its instance
@@ -753,6 +757,49 @@ type FuncResult struct {
 	Assumptions []string
 	NInstr      int
 	vc          *VC
+}
+
+// verifyLemma: a lemma is a closed formula over the specification vocabulary,
+// proved in an arbitrary well-typed heap from the definitions and axioms only (no
+// code). Lemmas compose contracts: what follows from the postconditions of two
+// functions is stated once and discharged like any other obligation.
+func verifyLemma(P *Program, SS *SpecSet, G *Globals, lm *Lemma) (res *FuncResult) {
+	con := &Contract{Serves: lm.Serves, Pkg: lm.Pkg}
+	vc := newVC(P, SS, G, nil, con)
+	vc.suffix = "lemma:" + lm.Name
+	res = &FuncResult{Name: "lemma:" + lm.Name, Con: con, vc: vc}
+	defer func() {
+		if r := recover(); r != nil {
+			if u, ok := r.(unsupported); ok {
+				res.Unsupported = u.why
+			} else if se, ok := r.(specErr); ok {
+				res.SpecErrs = append(res.SpecErrs, se.msg)
+			} else {
+				panic(r)
+			}
+		}
+		res.Obls = vc.obls
+		res.SpecErrs = append(res.SpecErrs, vc.specErrs...)
+		for a := range vc.usedAssumptions {
+			res.Assumptions = append(res.Assumptions, a)
+		}
+		sort.Strings(res.Assumptions)
+	}()
+	vc.declareNamed("alloc0", "Int")
+	vc.decls = append(vc.decls, "(assert (< 0 alloc0))")
+	st := &State{heap: map[string]string{}, alloc: "alloc0"}
+	pkg := P.SPkgs[lm.Pkg]
+	if pkg == nil {
+		pkg = P.SPkgs["biscuit"]
+	}
+	env := &specEnv{vc: vc, pkg: pkg.Pkg, names: map[string]*specBinding{}, pre: st, cur: st, allocPre: "alloc0"}
+	t, err := env.trBool(lm.Expr)
+	if err != nil {
+		vc.specErrs = append(vc.specErrs, fmt.Sprintf("lemma %s: %v [%s]", lm.Name, err, lm.Line))
+		return res
+	}
+	vc.oblige("lemma", lm.Name, "true", t, lm.Line, lm.Src, lm.Serves)
+	return res
 }
 
 // asIfaceType is set while an implementor is verified against an
